@@ -48,21 +48,34 @@ def run_cases(binary, cases, nproc=None, timeout=1500, per_batch=None):
     return out
 
 
-def run_cases_isolated(binary, cases, nproc=None, timeout=600):
-    """One process per case (cases that may abort the process: huge allocations, stack overflow).
-    A crash is returned as {"id":.., "abort": rc, "stderr": ..}."""
+def run_cases_isolated(binary, cases, nproc=1, timeout=120, as_limit=6 << 30):
+    """One process per case, for cases that may abort the process or commit a lot of memory (huge dictionaries:
+    with the `optimization` feature the match-finder tables are 64-byte aligned and therefore really zero-filled
+    at construction, about 4 x dict (HC4) / 8 x dict (BT4) bytes). Every child runs under a hard address-space
+    limit (prlimit --as) and a timeout, and by default strictly one at a time, so that a grid point can never
+    exhaust the machine. Results: the JSON line, or {"abort": rc, "stderr": ..} when the process died,
+    {"resource": why} when it hit the address-space limit or the timeout (no verdict)."""
+    import subprocess
+    from concurrent.futures import ThreadPoolExecutor
     if not cases:
         return []
-    jobs = [([], json.dumps(c) + "\n") for c in cases]
-    res = core.run_bin_parallel(binary, jobs, timeout=timeout, nproc=nproc or min(core.NCPU, 12))
-    out = []
-    for c, r in zip(cases, res):
-        lines = [x for x in r.stdout.splitlines() if x.strip()]
-        if r.returncode == 0 and len(lines) == 1:
-            out.append(json.loads(lines[0]))
-        else:
-            out.append({"id": c.get("id"), "abort": r.returncode, "stderr": r.stderr[-600:]})
-    return out
+    exe = os.path.join(core.build_harness(), binary)
+
+    def one(c):
+        cmd = ["prlimit", f"--as={as_limit}", exe]
+        try:
+            p = subprocess.run(cmd, input=json.dumps(c) + "\n", capture_output=True, text=True, timeout=timeout)
+        except subprocess.TimeoutExpired:
+            return {"id": c.get("id"), "resource": f"timeout after {timeout}s"}
+        lines = [x for x in p.stdout.splitlines() if x.strip()]
+        if p.returncode == 0 and len(lines) == 1:
+            return json.loads(lines[0])
+        err = p.stderr[-600:]
+        if "memory allocation of" in err or "out of memory" in err.lower():
+            return {"id": c.get("id"), "resource": "allocation refused under the address-space limit: " + err.strip().splitlines()[-1][:120]}
+        return {"id": c.get("id"), "abort": p.returncode, "stderr": err}
+    with ThreadPoolExecutor(max_workers=max(1, nproc)) as pool:
+        return list(pool.map(one, cases))
 
 
 # --------------------------------------------------------------------------- FilterStream models
